@@ -7,12 +7,18 @@ L2: `queued(SerialEvaluator)` under the virtual-time loop (every completion orde
     take / start / end / release is replayed step by step by `Model/Queued.lean`, which must find every
     step enabled and produce the same popped resources, the same `dequed` argument, the same metadata
     and the same queue contents.
-L3: the property on the real trace: concurrent evaluations received disjoint resources, each received
+    Scenarios with `close()` while jobs wait for resources / hold resources and wait for a worker / run /
+    have finished ungathered, with an evaluator timeout set, and reuse (submit + gather) afterwards: the
+    model's `cancel` transitions must reproduce the queue after every returned resource and after close().
+L3: the property on the real trace (after close() the queue holds every resource again; progress afterwards): concurrent evaluations received disjoint resources, each received
     exactly queue_pop_per_task of them, metadata names them, everything is back in the queue at the end,
     no call raises and every submitted job is returned.
 """
 import asyncio
 import collections
+import contextlib
+import contextvars
+import io
 import itertools
 import json
 import threading
@@ -26,6 +32,7 @@ PROP = "C17"
 _LOG = []
 _LOCK = threading.Lock()
 _REG = {}
+_CUR = contextvars.ContextVar("c17_current_job", default=None)  # job whose execute() the current task runs
 
 
 def _log(*e):
@@ -58,17 +65,29 @@ def run_thread(job, dequed=None):
 
 
 class LogDeque(collections.deque):
-    """the evaluator's `queue`, recording every popleft / extend with the contents afterwards"""
+    """the evaluator's `queue`, recording every popleft / extend with the contents afterwards and the
+    job on whose behalf it happens"""
 
     def popleft(self):
         v = super().popleft()
-        _log("pop", v, list(self))
+        _log("pop", v, list(self), _CUR.get())
         return v
 
     def extend(self, it):
         it = list(it)
         super().extend(it)
-        _log("extend", it, list(self))
+        _log("extend", it, list(self), _CUR.get())
+
+
+def _observed(cls):
+    """the queued class with `execute` (the public per-backend hook) announcing its job to the deque"""
+
+    class Observed(cls):
+        async def execute(self, job):
+            _CUR.set(_jid(job.id))
+            return await super().execute(job)
+
+    return Observed
 
 
 class Deadlock(Exception):
@@ -88,11 +107,16 @@ def _guard_vloop():
     return orig
 
 
+def _actions(w):
+    th = w.get("then", {"kind": "none"})
+    return th if isinstance(th, list) else [th]
+
+
 # --------------------------------------------------------------------------- real run
 
 
 def drive(case, vt):
-    """-> dict(log, metas, returned, error, final_queue)"""
+    """-> dict(log, metas (job -> metadata['dequed'] or None), returned, error, final_queue, nsub)"""
     from deephyper.evaluator import SerialEvaluator, ThreadPoolEvaluator, queued
 
     global _REG
@@ -104,21 +128,22 @@ def drive(case, vt):
     _REG = {}
     if vt is not None:
         vt.reset()
-    res = {"log": None, "metas": {}, "returned": [], "error": None, "final_queue": None, "where": None}
+    res = {"log": None, "metas": {}, "returned": [], "error": None, "final_queue": None, "where": None, "nsub": 0}
     try:
-        ev = queued(base)(fn, num_workers=case["workers"], queue=list(case["queue"]), queue_pop_per_task=case["pop"])
+        ev = _observed(queued(base))(fn, num_workers=case["workers"], queue=list(case["queue"]),
+                                     queue_pop_per_task=case["pop"])
     except Exception as e:
         res.update(error=f"{type(e).__name__}: {e}", where="constructor", log=[])
         return res
     ev.queue = LogDeque(ev.queue)
-    prio, stop_all = {}, threading.Event()
+    prio = {}
 
     def director(stop):
         last_progress = time.time()
         while not stop.is_set():
             cand = [j for j, r in _REG.items() if r["entered"].is_set() and not r["release"].is_set()]
             if not cand:
-                if time.time() - last_progress > 20 and ev.loop is not None:  # nothing runs, nothing returns
+                if time.time() - last_progress > 8 and ev.loop is not None:  # nothing runs, nothing returns
                     ev.loop.call_soon_threadsafe(ev.loop.stop)
                     return
                 time.sleep(0.0003)
@@ -134,6 +159,8 @@ def drive(case, vt):
         waves = case["waves"] + [{"jobs": [], "then": {"kind": "all"}}]
         for w in waves:
             if w["jobs"]:
+                if w.get("timeout") is not None:
+                    ev.timeout = w["timeout"]  # expiry does not cancel the task: the job waits for its run-function
                 for t, jb in enumerate(w["jobs"]):
                     if backend == "thread":
                         _REG[nsub + t] = {"entered": threading.Event(), "release": threading.Event(), "finished": threading.Event()}
@@ -142,25 +169,34 @@ def drive(case, vt):
                 res["where"] = "submit"
                 ev.submit([{"d": jb["d"]} for jb in w["jobs"]])
                 nsub += len(w["jobs"])
-            th = w["then"]
-            if th["kind"] == "none":
-                continue
-            stop, t = threading.Event(), None
-            if backend == "thread":
-                t = threading.Thread(target=director, args=(stop,), daemon=True)
-                t.start()
-            try:
-                res["where"] = "gather"
-                jobs = ev.gather("ALL") if th["kind"] == "all" else ev.gather("BATCH", th["k"])
-            finally:
-                stop.set()
-                if t is not None:
-                    t.join(30)
-            if isinstance(jobs, tuple):
-                jobs = jobs[0]
-            for jb in jobs:
-                res["returned"].append(_jid(jb.id))
-                res["metas"][_jid(jb.id)] = jb.metadata.get("dequed")
+                res["nsub"] = nsub
+            for th in _actions(w):
+                if th["kind"] == "none":
+                    continue
+                if th["kind"] == "close":
+                    res["where"] = "close"
+                    _log("close")
+                    ev.close()
+                    _log("closed", list(ev.queue))
+                    for r in _REG.values():  # free the worker threads of the cancelled evaluations
+                        r["release"].set()
+                    continue
+                stop, t = threading.Event(), None
+                if backend == "thread":
+                    t = threading.Thread(target=director, args=(stop,), daemon=True)
+                    t.start()
+                try:
+                    res["where"] = "gather"
+                    with contextlib.redirect_stdout(io.StringIO()):  # the code prints storage records
+                        jobs = ev.gather("ALL") if th["kind"] == "all" else ev.gather("BATCH", th["k"])
+                finally:
+                    stop.set()
+                    if t is not None:
+                        t.join(30)
+                if isinstance(jobs, tuple):
+                    jobs = jobs[0]
+                for jb in jobs:
+                    res["returned"].append(_jid(jb.id))
     except Exception as e:
         res["error"] = f"{type(e).__name__}: {e}"
     else:
@@ -170,6 +206,8 @@ def drive(case, vt):
             r["release"].set()
         try:
             res["final_queue"] = list(ev.queue)
+            for jb in ev.jobs:  # public list of every job ever submitted
+                res["metas"][_jid(jb.id)] = jb.metadata.get("dequed")
         except Exception:
             pass
         try:
@@ -181,17 +219,120 @@ def drive(case, vt):
             ex.shutdown(wait=True)
     with _LOCK:
         res["log"] = [list(e) for e in _LOG]
-    res["nsub"] = nsub
     return res
 
 
-# --------------------------------------------------------------------------- L3 oracle on the raw trace
+# --------------------------------------------------------------------------- the trace, job by job
 
 
 def _parse_meta(m):
     if m is None:
         return None
     return [int(x) for x in m.split(",")] if m != "" else []
+
+
+def extract_steps(case, res):
+    """the real trace as model steps, each with the observation the model has to reproduce; also the
+    phase of every job at each close().  (None, reason) when the trace does not follow the life cycle
+    of a job at all (reported as a correspondence failure, not a harness error)"""
+    pop = case["pop"]
+    metas = {j: _parse_meta(m) for j, m in res["metas"].items()}
+    st, group, steps, closes = {}, {}, [], []
+    n = 0
+    for e in res["log"]:
+        k = e[0]
+        if k == "submit":
+            steps.append({"op": "submit", "n": e[1]})
+            for j in range(n, n + e[1]):
+                st[j] = "created"
+            n += e[1]
+        elif k == "pop":
+            v, q, j = e[1], e[2], e[3]
+            if j is None or st.get(j) != "created":
+                return None, f"a resource is popped for job {j} in phase {st.get(j)}"
+            group.setdefault(j, []).append(v)
+            if len(group[j]) == pop:
+                steps.append({"op": "take", "j": j, "ds": group.pop(j), "queue": q})
+                st[j] = "holding"
+        elif k == "start":
+            j = e[1]
+            if st.get(j) != "holding" and not (pop == 0 and st.get(j) == "created"):
+                return None, f"the run-function of job {j} starts in phase {st.get(j)}"
+            steps.append({"op": "start", "j": j, "recv": e[2]})
+            st[j] = "running"
+        elif k == "end":
+            j = e[1]
+            if st.get(j) == "cancelled":
+                continue  # a cancelled evaluation whose thread / shielded coroutine ran on
+            if st.get(j) != "running":
+                return None, f"the run-function of job {j} ends in phase {st.get(j)}"
+            steps.append({"op": "end", "j": j})
+            st[j] = "returning"
+        elif k == "extend":
+            vs, q, j = e[1], e[2], e[3]
+            if j is None or st.get(j) not in ("holding", "running", "returning"):
+                return None, f"resources {vs} are returned for job {j} in phase {st.get(j)}"
+            if st[j] == "returning" and metas.get(j) is not None:
+                steps.append({"op": "release", "j": j, "meta": metas[j], "queue": q})
+                st[j] = "finished"
+            else:
+                steps.append({"op": "cancel", "j": j, "queue": q, "phase": st[j]})
+                st[j] = "cancelled"
+        elif k == "close":
+            closes.append({"phases": {}, "cancelled": []})
+            for j, ph in st.items():
+                if ph not in ("finished", "cancelled"):
+                    closes[-1]["phases"][ph] = closes[-1]["phases"].get(ph, 0) + 1
+                    closes[-1]["cancelled"].append(j)
+        elif k == "closed":
+            # whatever is not done after close() was cancelled; nothing of it touched the queue any more
+            for j in sorted(st):
+                if st[j] not in ("finished", "cancelled"):
+                    steps.append({"op": "cancel", "j": j, "phase": st[j]})
+                    st[j] = "cancelled"
+            steps.append({"op": "closed", "queue": e[1]})
+    if group:
+        return None, f"incomplete pops {group}"
+    return (steps, closes), None
+
+
+def lean_requests(case, steps, pre=False):
+    reqs = [{"op": "init", "queue": case["queue"], "pop": case["pop"], "workers": case["workers"], "pre": pre}]
+    for e in steps:
+        if e["op"] == "submit":
+            reqs.append({"op": "submit", "n": e["n"]})
+        elif e["op"] != "closed":
+            reqs.append({"op": e["op"], "j": e["j"]})
+    return reqs
+
+
+def compare(case, res, steps, reps):
+    it = iter(reps[1:])
+    last = reps[0]
+    for i, e in enumerate(steps):
+        if e["op"] == "closed":
+            if last["queue"] != e["queue"]:
+                return {"step": i, "what": "queue after close()", "impl": e["queue"], "model": last["queue"]}
+            continue
+        rep = last = next(it)
+        if not rep["enabled"]:
+            return {"step": i, "event": e, "what": "the model cannot take this step here (guard false)", "model_queue": rep["queue"]}
+        if e["op"] == "take" and (rep["ds"] != e["ds"] or rep["queue"] != e["queue"]):
+            return {"step": i, "event": e, "model": {"ds": rep["ds"], "queue": rep["queue"]}}
+        if e["op"] == "start" and rep["recv"] != e["recv"]:
+            return {"step": i, "event": e, "model": {"recv": rep["recv"]}}
+        if e["op"] == "release" and (rep["meta"] != e["meta"] or rep["queue"] != e["queue"]):
+            return {"step": i, "event": e, "model": {"meta": rep["meta"], "queue": rep["queue"]}}
+        if e["op"] == "cancel" and "queue" in e and rep["queue"] != e["queue"]:
+            return {"step": i, "event": e, "model": {"queue": rep["queue"]}}
+    if last["measure"] != 0:
+        return {"step": len(steps), "what": "model: some job neither finished nor was cancelled", "measure": last["measure"]}
+    if last["queue"] != res["final_queue"]:
+        return {"step": len(steps), "what": "final queue", "impl": res["final_queue"], "model": last["queue"]}
+    return None
+
+
+# --------------------------------------------------------------------------- L3 oracle on the raw trace
 
 
 def oracle(case, res):
@@ -201,9 +342,12 @@ def oracle(case, res):
     if res["error"] is not None:
         bad.append(("progress", f"{res['where']} raised {res['error']}"))
     running = {}  # job -> recv
-    recv_of = {}
+    recv_of, closed_over = {}, set()
+    n = 0
     for e in log:
-        if e[0] == "start":
+        if e[0] == "submit":
+            n += e[1]
+        elif e[0] == "start":
             j, recv = e[1], e[2]
             recv_of[j] = recv
             if recv is None or len(recv) != pop:
@@ -214,13 +358,20 @@ def oracle(case, res):
             running[j] = recv
         elif e[0] == "end":
             running.pop(e[1], None)
+        elif e[0] == "closed":
+            # every evaluation submitted so far has ended (normally or by cancellation) and is recorded
+            # by close(): every resource must be back
+            running.clear()
+            closed_over = set(range(n))
+            if sorted(e[1]) != sorted(case["queue"]):
+                bad.append(("returned", f"queue after close() {e[1]}, initially {case['queue']}"))
     for j, m in sorted(res["metas"].items()):
-        if j in recv_of and _parse_meta(m) != recv_of[j]:
+        if m is not None and j in recv_of and _parse_meta(m) != recv_of[j]:
             bad.append(("metadata", f"job {j}: metadata dequed={m!r} but the run-function received {recv_of[j]}"))
     if res["error"] is None:
-        missing = sorted(set(range(res["nsub"])) - set(res["returned"]))
+        missing = sorted(set(range(res["nsub"])) - set(res["returned"]) - closed_over)
         if missing or len(res["returned"]) != len(set(res["returned"])):
-            bad.append(("progress", f"jobs {missing} never returned (returned {res['returned']})"))
+            bad.append(("progress", f"jobs {missing} never returned (returned {res['returned']}, ended by a close {sorted(closed_over)})"))
         elif sorted(res["final_queue"]) != sorted(case["queue"]):
             bad.append(("returned", f"queue at the end {res['final_queue']}, initially {case['queue']}"))
     order = {"progress": 1, "exclusive": 0, "count": 2, "metadata": 3, "returned": 4}
@@ -228,16 +379,24 @@ def oracle(case, res):
     return bad
 
 
+def _has_close(case):
+    return any(a["kind"] == "close" for w in case["waves"] for a in _actions(w))
+
+
 def _preds(case):
     total = sum(len(w["jobs"]) for w in case["waves"])
     return {"jobs>workers": any(len(w["jobs"]) > case["workers"] for w in case["waves"]),
-            "jobs*pop>queue": total * case["pop"] > len(case["queue"])}
+            "jobs*pop>queue": total * case["pop"] > len(case["queue"]),
+            "close": _has_close(case)}
 
 
 def _neutralise(case, pred):
     c = json.loads(json.dumps(case))
     if pred == "jobs>workers":
         c["workers"] = max(len(w["jobs"]) for w in c["waves"])
+    elif pred == "close":
+        for w in c["waves"]:
+            w["then"] = [a for a in _actions(w) if a["kind"] != "close"]
     else:
         total = sum(len(w["jobs"]) for w in c["waves"])
         c["queue"] = c["queue"] + [max(c["queue"]) + 1 + i for i in range(total * c["pop"] - len(c["queue"]))]
@@ -261,86 +420,6 @@ def fingerprint(case, clause, vt=None):
                 needed.append(pred)
         _NEEDED[key] = needed
     return f"{PROP}|{clause}|queued(Evaluator).execute|{','.join(_NEEDED[key]) or 'any'}"
-
-
-# --------------------------------------------------------------------------- L2: trace -> model steps
-
-
-def extract_steps(case, res):
-    """the real trace as model steps with the observation expected from the model; None + reason
-    when the trace cannot be attributed (treated as a correspondence failure, not a harness error)"""
-    pop = case["pop"]
-    ev = []  # [kind, payload...]
-    group = []
-    for e in res["log"]:
-        if e[0] == "pop":
-            group.append(e)
-            if len(group) == pop:
-                ev.append({"op": "take", "ds": [g[1] for g in group], "queue": group[-1][2]})
-                group = []
-        elif e[0] == "extend":
-            ev.append({"op": "release", "ds": e[1], "queue": e[2]})
-        elif e[0] == "submit":
-            ev.append({"op": "submit", "n": e[1]})
-        elif e[0] == "start":
-            ev.append({"op": "start", "j": e[1], "recv": e[2]})
-        else:
-            ev.append({"op": "end", "j": e[1]})
-    if group:
-        return None, "incomplete group of pops"
-    metas = {j: _parse_meta(m) for j, m in res["metas"].items()}
-    start_pos = {e["j"]: i for i, e in enumerate(ev) if e["op"] == "start"}
-    end_pos = {e["j"]: i for i, e in enumerate(ev) if e["op"] == "end"}
-    matched = set()
-    holder = {}
-    for i, e in enumerate(ev):
-        if e["op"] == "take":
-            cand = [j for j, m in metas.items() if m == e["ds"] and j not in matched and start_pos.get(j, -1) > i]
-            if not cand:
-                return None, f"no job can be attributed to the take of {e['ds']}"
-            j = min(cand, key=lambda j: start_pos[j])
-            matched.add(j)
-            e["j"] = j
-            holder[j] = e["ds"]
-    released = set()
-    for i, e in enumerate(ev):
-        if e["op"] == "release":
-            cand = [j for j, ds in holder.items() if ds == e["ds"] and j not in released and end_pos.get(j, 10 ** 9) < i]
-            if not cand:
-                return None, f"no job can be attributed to the return of {e['ds']}"
-            j = min(cand, key=lambda j: end_pos[j])
-            released.add(j)
-            e["j"] = j
-            e["meta"] = metas[j]
-    return ev, None
-
-
-def lean_requests(case, steps, pre=False):
-    reqs = [{"op": "init", "queue": case["queue"], "pop": case["pop"], "workers": case["workers"], "pre": pre}]
-    for e in steps:
-        if e["op"] == "submit":
-            reqs.append({"op": "submit", "n": e["n"]})
-        else:
-            reqs.append({"op": e["op"], "j": e["j"]})
-    return reqs
-
-
-def compare(case, res, steps, reps):
-    for i, (e, rep) in enumerate(zip(steps, reps[1:])):
-        if not rep["enabled"]:
-            return {"step": i, "event": e, "what": "the model cannot take this step here (guard false)", "model_queue": rep["queue"]}
-        if e["op"] == "take" and (rep["ds"] != e["ds"] or rep["queue"] != e["queue"]):
-            return {"step": i, "event": e, "model": {"ds": rep["ds"], "queue": rep["queue"]}}
-        if e["op"] == "start" and rep["recv"] != e["recv"]:
-            return {"step": i, "event": e, "model": {"recv": rep["recv"]}}
-        if e["op"] == "release" and (rep["meta"] != e["meta"] or rep["queue"] != e["queue"]):
-            return {"step": i, "event": e, "model": {"meta": rep["meta"], "queue": rep["queue"]}}
-    last = reps[-1]
-    if last["measure"] != 0:
-        return {"step": len(steps), "what": "model: some job did not finish", "measure": last["measure"]}
-    if last["queue"] != res["final_queue"]:
-        return {"step": len(steps), "what": "final queue", "impl": res["final_queue"], "model": last["queue"]}
-    return None
 
 
 # --------------------------------------------------------------------------- generator
@@ -393,6 +472,46 @@ def gen_cases(ck):
                "waves": waves, "kind": "thread"}
 
 
+def _close_case(rng, backend):
+    """waves with close() at different moments (directly after a submit: tasks never ran; after a
+    BATCH gather: jobs waiting for resources / for a worker / running / finished-ungathered), then reuse"""
+    qn = rng.randint(1, 5)
+    pop = rng.choice([1, 1, 2]) if qn >= 2 else 1
+    workers = rng.randint(1, 3)
+    waves = []
+    for wi in range(rng.randint(1, 3)):
+        n = rng.randint(1, 6)
+        jobs = [({"d": rng.choice([0, 1, 2, 2, 3, 5, 8]) * Q} if backend == "serial" else {"d": 0, "prio": rng.randint(0, 9)})
+                for _ in range(n)]
+        r = rng.random()
+        if r < 0.25:
+            then = [{"kind": "close"}]
+        elif r < 0.8:
+            then = [{"kind": "batch", "k": rng.randint(1, max(1, min(3, n)))}, {"kind": "close"}]
+        elif r < 0.9:
+            then = [{"kind": "all"}, {"kind": "close"}]
+        else:
+            then = [_then(rng, n)]
+        w = {"jobs": jobs, "then": then}
+        if rng.random() < 0.25:
+            w["timeout"] = rng.choice([0, 2, 4]) * Q if backend == "serial" else rng.choice([0.0, 0.001])
+        waves.append(w)
+    # reuse after the last close
+    n = rng.randint(1, 4)
+    waves.append({"jobs": [({"d": rng.choice([0, 1, 2]) * Q} if backend == "serial" else {"d": 0, "prio": rng.randint(0, 9)})
+                           for _ in range(n)], "then": [_then(rng, n)]})
+    return {"backend": backend, "queue": [10 + i for i in range(qn)], "pop": pop, "workers": workers, "waves": waves,
+            "kind": "close"}
+
+
+def gen_close_cases(ck):
+    rng = ck.rng
+    for _ in range(ck.pick(300, 4000)):
+        yield _close_case(rng, "serial")
+    for _ in range(ck.pick(60, 600)):
+        yield _close_case(rng, "thread")
+
+
 # --------------------------------------------------------------------------- shrinking
 
 
@@ -402,7 +521,7 @@ def _same(case, vt, clause):
     return bool(bad) and bad[0][0] == clause, (res, bad)
 
 
-def shrink(case, vt, clause, budget=60):
+def shrink(case, vt, clause, budget=80):
     cur = json.loads(json.dumps(case))
     tries, changed = 0, True
 
@@ -416,9 +535,15 @@ def shrink(case, vt, clause, budget=60):
                 d = json.loads(json.dumps(c))
                 d["waves"][wi]["jobs"].pop()
                 yield d
-            if w["then"]["kind"] != "none":
+            acts = _actions(w)
+            for ai in range(len(acts)):
+                if acts[ai]["kind"] != "none":
+                    d = json.loads(json.dumps(c))
+                    d["waves"][wi]["then"] = acts[:ai] + acts[ai + 1:]
+                    yield d
+            if w.get("timeout") is not None:
                 d = json.loads(json.dumps(c))
-                d["waves"][wi]["then"] = {"kind": "none"}
+                d["waves"][wi].pop("timeout")
                 yield d
         if len(c["queue"]) > c["pop"]:
             d = json.loads(json.dumps(c))
@@ -461,6 +586,8 @@ def check_case(ck, d, case, vt, from_corpus=False):
         ck.count("demand-exceeds-queue")
     if any(len(w["jobs"]) > case["workers"] for w in case["waves"]):
         ck.count("wave-larger-than-workers")
+    if any(w.get("timeout") is not None for w in case["waves"]):
+        ck.count("evaluator-timeout-set")
     conc = cur = 0
     for e in res["log"]:
         if e[0] == "start":
@@ -491,14 +618,22 @@ def check_case(ck, d, case, vt, from_corpus=False):
         ck.fail(fp, f"{clause}: {detail}", small, {"clause": clause, "detail": detail, "all": sorted({b[0] for b in bad})})
     mm = None
     if res["error"] is None:
-        steps, why = extract_steps(case, res)
-        if steps is None:
+        ex, why = extract_steps(case, res)
+        if ex is None:
             mm = {"what": "trace cannot be replayed: " + why}
         else:
+            steps, closes = ex
             reps = d.ask_all(lean_requests(case, steps))
             mm = compare(case, res, steps, reps)
             for e in steps:
-                ck.count("step:" + e["op"])
+                ck.count("step:" + e["op"] + (":" + e["phase"] if e["op"] == "cancel" else ""))
+            for c in closes:
+                ck.count("close:" + ("idle" if not c["phases"] else "+".join(sorted(c["phases"]))))
+                for ph, k in c["phases"].items():
+                    ck.count(f"close-with-job-{ph}:{case['backend']}", k)
+            if closes and any(e["op"] == "submit" for i, e in enumerate(steps)
+                              if any(x["op"] == "closed" for x in steps[:i])):
+                ck.count("reuse-after-close")
     else:
         mm = {"what": "the implementation raised: " + res["error"]}
     if mm is not None:
@@ -519,12 +654,14 @@ def run(ck):
     ck.rule = ("queued(SerialEvaluator) on a virtual clock: one wave of n<=4 (quick) / 5 (thorough) jobs in every order of "
                "durations x random (queue 1..6, pop 1..2, workers 1..3), plus random waves of 1..8 jobs with ties and "
                "BATCH/ALL gathers between waves; queued(ThreadPoolEvaluator) with per-job events released by random "
-               "priority; distinct by canonical case; non-trivial = >= 2 jobs")
+               "priority; close() scenarios on both backends: 1..3 waves of 1..6 jobs each followed by close directly / "
+               "after a BATCH gather / after ALL, optional evaluator timeout (0, 2, 4 quanta), then reuse (submit + gather); "
+               "distinct by canonical case; non-trivial = >= 2 jobs")
     ck.assumptions = [
         "resources of the initial queue are pairwise distinct (the theorems' hypothesis q0.Nodup)",
         "queue_pop_per_task <= len(queue) (otherwise no job can ever run; the repaired constructor rejects it)",
         "asyncio runs each evaluation in its own task, a task has its own contextvars context",
-        "cancellation by close() is outside this property's quantifier",
+        "an evaluation cancelled by close() has ended: its resources must be back when close() returns",
     ]
     ck.trusted_extra = [
         "asyncio scheduling and the worker semaphore (abstracted into the guards of `take` / `start`)",
@@ -539,7 +676,7 @@ def run(ck):
                 if case["backend"] == "serial":
                     check_case(ck, d, case, vt, from_corpus=True)
             thread_cases = []
-            for case in gen_cases(ck):
+            for case in itertools.chain(gen_cases(ck), gen_close_cases(ck)):
                 if case["backend"] == "serial":
                     check_case(ck, d, case, vt)
                 else:
@@ -550,8 +687,13 @@ def run(ck):
         for name, case in _corpus():
             if case["backend"] != "serial":
                 check_case(ck, d, case, None, from_corpus=True)
+        stuck = 0
         for case in thread_cases:
-            check_case(ck, d, case, None)
+            if stuck >= 2:  # every stuck scenario costs seconds of real time; two replays are enough
+                ck.count("thread-scenario-skipped-after-two-stuck-ones")
+                continue
+            bad, _ = check_case(ck, d, case, None)
+            stuck += any(b[0] == "progress" and "stopped" in b[1] for b in bad)
     ck.extra_cov.pop("_shrunk", None)
     orders = ck.extra_cov.pop("_orders", set())
     ck.extra_cov["distinct_completion_orders"] = len(orders)
